@@ -227,6 +227,20 @@ Valid(S, doc, roots) ==
   /\ RuleTypenamePresent(S, doc, roots)
   /\ RuleSubscriptionSingleRoot(doc)
 
+\* GraphQL validity alone: Valid without graphql-client's own __typename rule.  A document that is
+\* ValidSpec but not Valid may be REFUSED by the generator; if it is accepted, the generated code owes
+\* it everything it owes any other program (ProgGen, constant Extended).
+ValidSpec(S, doc, roots) ==
+  /\ RuleRootTypesExist(doc, roots)
+  /\ RuleOperationsNamed(doc)
+  /\ RuleTypeConditionsExist(S, doc)
+  /\ RuleFragmentsDefined(doc)
+  /\ RuleFieldsExist(S, doc, roots)
+  /\ RuleOnlyTypenameOnUnion(S, doc, roots)
+  /\ RuleLeafComposite(S, doc, roots)
+  /\ RuleSpreadsPossible(S, doc, roots)
+  /\ RuleSubscriptionSingleRoot(doc)
+
 ----------------------------------------------------------------------------
 (* Execution shape (GraphQL spec, CollectFields): the response keys an      *)
 (* object of run-time type T gets from selection set (d,p).                 *)
